@@ -2346,12 +2346,15 @@ impl<'a, E: quiver_core::effects::Effect> Compiler<'a, E> {
             }
         }
 
-        // Patch the skip-cleanup jump and all final-end jumps to current position
+        // Patch the skip-cleanup jump to the current position. A last branch whose condition
+        // failed leaves the block as well, so it goes through the parameter clear like every
+        // other exit (jumping past it would leave the block's parameter in the locals and
+        // shift every variable bound after the block).
         if let Some(skip_jump) = skip_cleanup_jump {
             self.codegen.patch_jump_to_here(skip_jump);
         }
         for jump_addr in final_end_jumps {
-            self.codegen.patch_jump_to_here(jump_addr);
+            self.codegen.patch_jump_to_addr(jump_addr, param_clear_addr);
         }
 
         // Patch end_jumps to go to param clear
